@@ -34,9 +34,10 @@ type World struct {
 	RootCRL, PckCRL       []byte
 	RootCRLURLs           []string // where the Root CA CRL is served (default: the CRL DP of the QE-identity header root)
 
-	Roots []*x509.Certificate // trusted pool; nil => embedded Intel root
-	Times [5]time.Time
-	Extra map[string]Resp // extra / overriding responses
+	Roots    []*x509.Certificate // trusted pool; nil => embedded Intel root
+	Times    [5]time.Time
+	Extra    map[string]Resp // extra / overriding responses
+	HdrStyle int             // how issuer-chain headers are URL-escaped (see IssuerChainStyled)
 
 	Origin *World // the world this one was cloned from (nil for an original)
 }
@@ -94,9 +95,9 @@ func Unrelated(r *mrand.Rand, n int) []*big.Int {
 func (w *World) Resign() {
 	w.TcbBody = SignedBody("tcbInfo", w.Tcb.JSON(), w.PKI.TcbSign.Key)
 	w.QeBody = SignedBody("enclaveIdentity", w.Qe.JSON(), w.PKI.TcbSign.Key)
-	w.TcbHdr = map[string][]string{HdrTcbInfo: {IssuerChain(w.PKI.TcbSign, w.PKI.Root)}}
-	w.QeHdr = map[string][]string{HdrQeID: {IssuerChain(w.PKI.TcbSign, w.PKI.Root)}}
-	w.CrlHdr = map[string][]string{HdrPckCrl: {IssuerChain(w.PKI.Inter, w.PKI.Root)}}
+	w.TcbHdr = map[string][]string{HdrTcbInfo: {IssuerChainStyled(w.HdrStyle, w.PKI.TcbSign, w.PKI.Root)}}
+	w.QeHdr = map[string][]string{HdrQeID: {IssuerChainStyled(w.HdrStyle, w.PKI.TcbSign, w.PKI.Root)}}
+	w.CrlHdr = map[string][]string{HdrPckCrl: {IssuerChainStyled(w.HdrStyle, w.PKI.Inter, w.PKI.Root)}}
 }
 
 // MakeCRLs builds both CRLs with the given revoked serials, valid ±30 days.
